@@ -222,7 +222,7 @@ Qed.
 (** one key does not disturb its siblings *)
 Lemma write_dict_frame items : forall f f' e,
   (forall k it, In (k, it) items -> simple k /\ flat_item it) ->
-  write_dict true f gn items true = (f', e) ->
+  write_dict VCur f gn items true = (f', e) ->
   forall k, simple k -> ~ In k (map fst items) -> lookup (P k) f' = lookup (P k) f.
 Proof.
   induction items as [|[k0 it0] t IH]; intros f f' e Hit Hw k Hk Hnin.
@@ -233,7 +233,7 @@ Proof.
     assert (Hit' : forall k it, In (k, it) t -> simple k /\ flat_item it) by (intros; apply Hit; right; assumption).
     cbn [write_dict] in Hw. fold (P k0) in Hw.
     destruct Hfl as [->|[d ->]].
-    + cbn [andb] in Hw. rewrite (IH _ _ _ Hit' Hw k Hk Hnin').
+    + cbn [andb clears_none] in Hw. rewrite (IH _ _ _ Hit' Hw k Hk Hnin').
       destruct (mem (P k0) f); [apply lookup_del_other, P_not_prefix; assumption | reflexivity].
     + rewrite andb_true_r in Hw.
       set (f1 := if mem (P k0) f then del (P k0) f else f) in *.
@@ -249,7 +249,7 @@ Qed.
 (** the group itself survives the writes of its members *)
 Lemma write_dict_keeps_base items : forall f f' e,
   (forall k it, In (k, it) items -> simple k /\ flat_item it) ->
-  write_dict true f gn items true = (f', e) -> mem base f = true -> mem base f' = true.
+  write_dict VCur f gn items true = (f', e) -> mem base f = true -> mem base f' = true.
 Proof.
   induction items as [|[k0 it0] t IH]; intros f f' e Hit Hw Hm.
   - cbn in Hw. inversion Hw; subst; exact Hm.
@@ -259,7 +259,7 @@ Proof.
     assert (Hd : mem base (if mem (P k0) f then del (P k0) f else f) = true).
     { destruct (mem (P k0) f); [|exact Hm]. unfold mem. rewrite lookup_del_other by (apply P_not_prefix_base; exact Hk0). exact Hm. }
     destruct Hfl as [->|[d ->]].
-    + cbn [andb] in Hw. eapply IH; eauto.
+    + cbn [andb clears_none] in Hw. eapply IH; eauto.
     + rewrite andb_true_r in Hw. destruct (create (P k0) d _) as [f2|er] eqn:Ec.
       * eapply IH; eauto. eapply mem_create_keeps; eauto.
       * inversion Hw; subst. exact Hd.
@@ -268,7 +268,7 @@ Qed.
 (** after a successful overwrite every key holds exactly its item: a dataset for data, nothing for None *)
 Lemma write_dict_post items : forall f f',
   (forall k it, In (k, it) items -> simple k /\ flat_item it) -> NoDup (map fst items) ->
-  write_dict true f gn items true = (f', None) ->
+  write_dict VCur f gn items true = (f', None) ->
   forall k it, In (k, it) items ->
     match it with INone => lookup (P k) f' = None | IData d => lookup (P k) f' = Some (NData d) /\ mem base f' = true | _ => True end.
 Proof.
@@ -280,13 +280,13 @@ Proof.
   destruct Hin as [Hin|Hin].
   - inversion Hin; subst k it. clear Hin.
     destruct Hfl as [->|[d ->]].
-    + cbn [andb] in Hw. rewrite (write_dict_frame _ _ _ _ Hit' Hw k0 Hk0 Hnin).
+    + cbn [andb clears_none] in Hw. rewrite (write_dict_frame _ _ _ _ Hit' Hw k0 Hk0 Hnin).
       destruct (mem (P k0) f) eqn:E; [apply lookup_del_same, P_nonnil; exact Hk0 | apply mem_lookup; exact E].
     + rewrite andb_true_r in Hw. destruct (create (P k0) d _) as [f2|er] eqn:Ec; [|discriminate]. split.
       * rewrite (write_dict_frame _ _ _ _ Hit' Hw k0 Hk0 Hnin). eapply lookup_create_same; [apply P_nonnil; exact Hk0 | exact Ec].
       * eapply write_dict_keeps_base; [exact Hit' | exact Hw |]. eapply mem_create_prefix; [exact Ec | apply base_in_prefixes; exact Hk0].
   - destruct Hfl as [->|[d ->]].
-    + cbn [andb] in Hw. eapply IH; eauto.
+    + cbn [andb clears_none] in Hw. eapply IH; eauto.
     + rewrite andb_true_r in Hw. destruct (create (P k0) d _) as [f2|er] eqn:Ec; [|discriminate]. eapply IH; eauto.
 Qed.
 End Flat.
@@ -400,9 +400,9 @@ Proof.
 Qed.
 
 Theorem roundtrip_flat (nt : Z) (f f' : file) (g : option str) :
-  to_hdf5 true s f g o true = (f', None) -> from_hdf5 s nt f' g = construct s nt (proj s o).
+  to_hdf5 VCur s f g o true = (f', None) -> from_hdf5 s nt f' g = construct s nt (proj s o).
 Proof.
-  unfold to_hdf5, from_hdf5. destruct (norm_group g) as [gn|e] eqn:Eg; [|discriminate]. intro Hw. fold items in Hw.
+  unfold to_hdf5, from_hdf5, from_hdf5_gen. destruct (norm_group g) as [gn|e] eqn:Eg; [|discriminate]. intro Hw. fold items in Hw.
   destruct (norm_group_wf _ _ Eg) as [Hgn Hbase].
   destruct spec_parts as [Hnd [Hwr [Hrd [[r0 [Hr0 Hopt0]] Hreq]]]].
   pose proof (write_dict_post gn Hgn items f f' items_flat Hnd Hw) as Post.
@@ -429,7 +429,7 @@ Proof.
     destruct (attr k o) as [[v|l]|]; [destruct Found as [d [L _]]; unfold mem; rewrite L; reflexivity | contradiction | destruct Found; congruence]. }
   rewrite Hrq. cbn [negb].
   (* every field reads back the attribute *)
-  assert (Hread : forall l, incl l (reads s) -> read_fields f' gn l = inl (map (fun r => (rslot r, attr (rkey r) o)) l)).
+  assert (Hread : forall l, incl l (reads s) -> read_fields true f' gn l = inl (map (fun r => (rslot r, attr (rkey r) o)) l)).
   { induction l as [|r l IH]; intro Hincl; [reflexivity|].
     assert (Hr : In r (reads s)) by (apply Hincl; left; reflexivity).
     cbn [read_fields map]. specialize (Found r Hr). destruct (Hrd r Hr) as [_ Hnd'].
@@ -444,7 +444,7 @@ Qed.
 End RoundTrip.
 
 (** ** any history of writes to one location: the last object is read back *)
-Fixpoint write_all (fx : bool) (s : cls_spec) (f : file) (g : option str) (os : list obj) : file * option err :=
+Fixpoint write_all (fx : ver) (s : cls_spec) (f : file) (g : option str) (os : list obj) : file * option err :=
   match os with
   | [] => (f, None)
   | o :: t => match to_hdf5 fx s f g o true with
@@ -455,12 +455,12 @@ Fixpoint write_all (fx : bool) (s : cls_spec) (f : file) (g : option str) (os : 
 
 Theorem read_after_writes_flat (s : cls_spec) : flat_spec s = true ->
   forall (os : list obj) (o : obj) (f f' : file) (g : option str) (nt : Z),
-  wf_obj s o = true -> write_all true s f g (os ++ [o]) = (f', None) -> from_hdf5 s nt f' g = construct s nt (proj s o).
+  wf_obj s o = true -> write_all VCur s f g (os ++ [o]) = (f', None) -> from_hdf5 s nt f' g = construct s nt (proj s o).
 Proof.
   intros Hs os. induction os as [|o0 t IH]; intros o f f' g nt Hwf Hw.
-  - cbn [app write_all] in Hw. destruct (to_hdf5 true s f g o true) as [f1 [e|]] eqn:E; [discriminate|].
+  - cbn [app write_all] in Hw. destruct (to_hdf5 VCur s f g o true) as [f1 [e|]] eqn:E; [discriminate|].
     inversion Hw; subst f1. eapply roundtrip_flat; eauto.
-  - cbn [app write_all] in Hw. destruct (to_hdf5 true s f g o0 true) as [f1 [e|]] eqn:E; [discriminate|]. eapply IH; eauto.
+  - cbn [app write_all] in Hw. destruct (to_hdf5 VCur s f g o0 true) as [f1 [e|]] eqn:E; [discriminate|]. eapply IH; eauto.
 Qed.
 
 (** ** typed values survive their readers *)
@@ -574,7 +574,7 @@ Qed.
 
 Lemma write_dict_succeeds items : forall f,
   (forall k it, In (k, it) items -> simple k /\ flat_item it) -> group_free f base ->
-  exists f', write_dict true f gn items true = (f', None).
+  exists f', write_dict VCur f gn items true = (f', None).
 Proof.
   induction items as [|[k0 it0] t IH]; intros f Hit Hf; [eexists; reflexivity|].
   assert (Hk0 : simple k0 /\ flat_item it0) by (apply Hit; left; reflexivity). destruct Hk0 as [Hk0 Hfl].
@@ -584,7 +584,7 @@ Proof.
   assert (Hm1 : mem (P k0) (if mem (P k0) f then del (P k0) f else f) = false).
   { destruct (mem (P k0) f) eqn:E; [|exact E]. apply mem_lookup. apply lookup_del_same. unfold P. rewrite (path_of_key gn k0 Hgn Hk0). destruct (split_path gn); discriminate. }
   destruct Hfl as [->|[d ->]].
-  - cbn [andb]. apply IH; assumption.
+  - cbn [andb clears_none]. apply IH; assumption.
   - rewrite andb_true_r. destruct (create_ok _ k0 d Hk0 Hf1 Hm1) as [f2 Ec]. rewrite Ec. apply IH; [exact Hit'|]. eapply group_free_create; eauto.
 Qed.
 End Success.
@@ -593,7 +593,7 @@ End Success.
 Theorem to_hdf5_succeeds (s : cls_spec) (o : obj) (f : file) (g : option str) :
   flat_spec s = true -> wf_obj s o = true -> g <> Some [] ->
   (forall gn, norm_group g = inl gn -> group_free f (split_path gn)) ->
-  exists f', to_hdf5 true s f g o true = (f', None).
+  exists f', to_hdf5 VCur s f g o true = (f', None).
 Proof.
   intros Hs Hwf Hg Hfree. unfold to_hdf5. destruct (norm_group g) as [gn|e] eqn:Eg.
   - destruct (norm_group_wf _ _ Eg) as [Hgn _]. apply write_dict_succeeds; [exact Hgn | apply items_flat; assumption | apply Hfree; reflexivity].
